@@ -18,6 +18,7 @@ func init() {
 			"PV-CONST --limit default is non-positive; line_format result is a copy of the template buffer; PV-CMP comparators",
 			"PV-ALIAS no unsafe.String",
 			"PV-WHOLE SetAttrs visits every attribute; the limit counts kept entries",
+			"a listed container is selected once; openLog context",
 		},
 		NotDecided: []string{"terminal behaviour", "isatty / NO_COLOR detection"},
 		Rules: func(r *Run) {
@@ -35,6 +36,8 @@ func init() {
 			ruleNoUnsafeStrings(r, []string{enginePkg, dockerlogPkg, cmdPkg})
 			ruleSetAttrsWhole(r) // the container name and colour come from labels that must all be there
 			ruleLimit(r)
+			ruleFetchContainers(r)
+			ruleOpenLogContext(r)
 		},
 	})
 }
